@@ -190,6 +190,17 @@ def evalC19CancelledOwner (ins outs : List String) : Verdict :=
   | _, _, _, _ => .bad "C19 cancelledowner"
 
 def evalC19Flight (ins outs : List String) : Verdict :=
+  if kv? ins "kind" == some "taildown" then
+    (match kvNat? ins "hi", kvNat? ins "sfh", kv? outs "h1", kv? outs "tailmove", kvNat? outs "tail", kv? outs "h2", kv? outs "stale", kv? outs "h3" with
+     | some hi, some sfh, some h1, some mv, some tail, some h2, some stale, some h3 =>
+       match h1.toNat?, h2.toNat?, h3.toNat? with
+       | some v1, some v2, some v3 =>
+         if v1 != hi then .prop "c19_head_result" s!"h1={h1}, the store head is {hi}" else
+         if v2 < v1 || v3 < v2 then .prop "c19_monotone" s!"Head() returned {v1}, then {v2}, {v3} after the tail moved down to {tail} ({mv})" else
+         if stale != "refuse" then .prop "c03_invalid_gossip_refused" s!"a stale header below the head was accepted after the tail moved down" else
+         if mv != "ok" || tail != sfh then .prop "c16_not_wedged" s!"tail move down: {mv}, tail={tail}, configured {sfh}" else .ok "taildown"
+       | _, _, _ => .prop "c19_head_result" s!"h1={h1} h2={h2} h3={h3}"
+     | _, _, _, _, _, _, _, _ => .bad "taildown fields") else
   if kv? ins "kind" == some "lagstore" then
     (match kvNat? ins "store", kv? outs "arrive", kv? outs "h1", kv? outs "tailmove", kvNat? outs "tail", kv? outs "h2", kv? outs "h3" with
      | some st, some "ok", some h1, some mv, some tail, some h2, some h3 =>
